@@ -55,5 +55,5 @@ class AwaitableRSocket:
     async def connect(self):
         return await self._rsocket.connect()
 
-    def close(self):
-        self._rsocket.close()
+    async def close(self):
+        await self._rsocket.close()
